@@ -77,7 +77,14 @@ func (t *Tape) DrawW(weights []int) int {
 		return 0
 	}
 	if t.replaying {
-		return t.Draw(len(weights))
+		// a replayed (possibly shrunk) value must never select a choice whose weight is zero in
+		// this run's configuration: that would inject a fault the run did not enable.
+		idx := t.Draw(len(weights))
+		if weights[idx] <= 0 {
+			t.Rec[len(t.Rec)-1] = 0
+			return 0
+		}
+		return idx
 	}
 	total := 0
 	for _, w := range weights {
